@@ -1059,6 +1059,19 @@ func init() {
 		g.chanSend(v.val().(*Chan), copyVal(toDeclared(a[0].(RV), ct.Elem())))
 		return nil
 	})
+	V("TryRecv", func(g *G, v RV, a []Value) Value {
+		ct := under(v.T).(*types.Chan)
+		idx, x, ok := g.selectCases([]*selCase{{ch: v.val().(*Chan)}}, true)
+		if idx < 0 {
+			return Tuple{RV{}, Bool{C: false}}
+		}
+		return Tuple{RV{T: ct.Elem(), V: x}, Bool{C: ok}}
+	})
+	V("TrySend", func(g *G, v RV, a []Value) Value {
+		ct := under(v.T).(*types.Chan)
+		idx, _, _ := g.selectCases([]*selCase{{ch: v.val().(*Chan), isSend: true, sendV: copyVal(toDeclared(a[0].(RV), ct.Elem()))}}, true)
+		return Bool{C: idx >= 0}
+	})
 	V("Recv", func(g *G, v RV, a []Value) Value {
 		ct := under(v.T).(*types.Chan)
 		x, ok := g.chanRecv(v.val().(*Chan))
